@@ -208,7 +208,7 @@ def cgLoop (cfg : MinCfg α) (f : Array α → α) (df : Option (Array α → Ar
       | none => (.hang, .none)
       | some (t, fx) =>
         let x := pointAt s.x s.cg t
-        if !(isFinite fx) then (.res .erange x (one / zero), .none) else
+        if !(isFinite fx) then (.res .erange x (one / zero), .none) else      -- `status = eslERANGE; goto ERROR` (a return since 137d847, an exception before)
         let w1 := negGradient cfg f df x
         -- Polak-Ribiere
         let coeff := (Array.zipWith (fun w d => (w - d) * w) w1 s.dx).foldl (fun acc t => acc + t) zero
